@@ -13,7 +13,7 @@ RULE = ("Generated: three state types, n 1..5 (density 1..4), nh 1..4, na 1..3, 
         "(enumerated hidden/aux units) and O_hat a dense Kronecker-product operator (Pauli X, Pauli Y=[[0,-i],[i,0]], Z with the "
         "library's documented spin convention outcome 0 -> -1, 1 -> +1). Non-trivial = all biases non-zero and, for complex/"
         "density states, |<Y>| > 1e-6.")
-RULE_EXT = ('Extended as built: the same observable object is applied three times (results must agree), batches of up to 25003 rows (row i must equal the value of its basis state), n up to 8 for pure states.')
+RULE_EXT = ('Extended as built: the same observable object is applied three times (results must agree), batches of up to 25003 rows (row i must equal the value of its basis state), n up to 8 for pure states. Round 6: signed -> absolute -> signed evaluations of the same batch back to back by objects of the same class.')
 RULE = RULE + " " + RULE_EXT
 ASSUMPTIONS = ["Z / ZZ use the library's own to_pm1 convention (0 -> -1); asserting the textbook |0> -> +1 would demand what the code never claims",
                "absolute tolerance 1e-7 on expectation values (all are O(1))"]
@@ -90,6 +90,14 @@ def check(case):
                 f"the third application of the same Sigma{key} object differs from its first")
         require(tuple(sub.shape) == (len(idx),) and bool(torch.all((sub.double() - vals.double()[idx]).abs() <= 1e-9 * (1 + vals.double()[idx].abs()))),
                 f"pointwise:{key}", f"Sigma{key}.apply on a sub-batch differs from the rows of the full evaluation")
+        # signed -> absolute -> signed on the SAME batch, back to back (no other batch in between), by two objects of the same class
+        av2 = mk(True).apply(state, space.clone())
+        fourth = shared.apply(state, space.clone())
+        fifth = mk(False).apply(state, space.clone())
+        require(bool(torch.all((av2.double() - vals.double().abs()).abs() <= 1e-12 * (1 + vals.double().abs()))) and
+                bool(torch.all((fourth.double() - vals.double()).abs() <= 1e-12 * (1 + vals.double().abs()))) and
+                bool(torch.all((fifth.double() - vals.double()).abs() <= 1e-12 * (1 + vals.double().abs()))), f"reuse:{key}:signed-absolute-signed",
+                f"Sigma{key}: a signed evaluation right after an absolute=True evaluation of the same batch differs from the first signed evaluation")
     for c in range(1, n + 1):
         for pbc in (False, True):
             keep = space.clone()
